@@ -416,6 +416,47 @@ func (e *Env) call(n *ast.CallExpr) Val {
 		v := e.tr(args[0])
 		e.inOld = save
 		return v
+	case "gocall": // gocall("pkg/path.Func", args...): the value the code's own (pure, loop-free) helper computes, obtained by
+		// symbolically executing its body on the given arguments. Used for store-key builders, so that contracts name keys
+		// exactly as the code builds them.
+		if len(args) < 1 {
+			g.fail("gocall needs a function name")
+		}
+		name, _ := strconv.Unquote(args[0].(*ast.BasicLit).Value)
+		i := strings.LastIndex(name, ".")
+		if i < 0 {
+			g.fail("gocall: %q is not pkg/path.Func", name)
+		}
+		pk := g.w.ssaPkgs[modPath+"/"+name[:i]]
+		if pk == nil {
+			g.fail("gocall: package %s is not loaded", name[:i])
+		}
+		fn := pk.Func(name[i+1:])
+		if fn == nil || len(fn.Blocks) == 0 {
+			g.fail("gocall: no function %s", name)
+		}
+		if hasLoops(fn) {
+			g.fail("gocall: %s has loops", name)
+		}
+		var avs []Val
+		for k, a := range args[1:] {
+			v := e.tr(a)
+			if v.Ptr != nil {
+				v = e.deref(v, "gocall")
+			}
+			if k < len(fn.Params) {
+				v.GoT = fn.Params[k].Type()
+			}
+			avs = append(avs, v)
+		}
+		if len(avs) != len(fn.Params) {
+			g.fail("gocall %s: %d arguments for %d parameters", name, len(avs), len(fn.Params))
+		}
+		res, _, _ := g.runFunc(fn, avs, nil, e.state().clone(), "true", 1, nil, false)
+		if len(res) != 1 || res[0].Term == "" {
+			g.fail("gocall %s: not a single plain result", name)
+		}
+		return res[0]
 	case "entry": // entry(e): the value of e when the current loop was entered (loop invariants only)
 		need(1)
 		if e.loopEntry == nil {
